@@ -462,7 +462,9 @@ impl<'a> Driver<'a> {
         let r = self.rng.gen_range(0..100);
         let k = self.rng.gen_range(0..self.nk);
         let v = self.rng.gen_range(0..self.nv);
-        let (c, root_ok) = if r < 45 {
+        let (c, root_ok) = if r < 2 {
+            ("stale", false)
+        } else if r < 45 {
             ("put", false)
         } else if r < 65 {
             ("del", false)
